@@ -36,6 +36,9 @@ type Config struct {
 	// ShardFirst: shard on the first event (this shard explores only the
 	// subtrees below the first-level events it owns).
 	ShardFirst bool
+	// MineFirst, when set, replaces the default ownership test of ShardFirst
+	// (index of the first-level event -> explored by this process?).
+	MineFirst func(ei int) bool
 	// Tag prefixes the sample / violation records.
 	Tag string
 }
@@ -104,7 +107,11 @@ func Run(r *vh.Run, c Config) Stats {
 				release(cur)
 			}
 			for ei, ev := range evs {
-				if depth == 0 && c.ShardFirst && !r.Mine(ei) {
+				if depth == 0 && c.MineFirst != nil {
+					if !c.MineFirst(ei) {
+						continue
+					}
+				} else if depth == 0 && c.ShardFirst && !r.Mine(ei) {
 					continue
 				}
 				var s interface{}
